@@ -1884,6 +1884,12 @@ func (n *TxNotifier) DisconnectTip(blockHeight uint32) error {
 	// those that have confirmed/spent at previous heights.
 	n.updateHints(blockHeight)
 
+	// Requests whose historical rescan has not completed yet are skipped by
+	// updateHints, but a hint cached by a previous run may now lie above
+	// the new tip. Lowering a hint is always safe, so make sure it does not
+	// stay above the height at which the request can confirm/be spent next.
+	n.lowerPendingHints()
+
 	// We'll go through all of our watched confirmation requests and attempt
 	// to drain their notification channels to ensure sending notifications
 	// to the clients is always non-blocking.
@@ -2003,6 +2009,52 @@ func (n *TxNotifier) updateHints(height uint32) {
 		// so we'll avoid returning an error.
 		Log.Debugf("Unable to update spend hints to %d for "+
 			"%v: %v", n.currentHeight, spendRequests, err)
+	}
+}
+
+// lowerPendingHints caps the cached hints of all requests with a pending
+// historical rescan at the current height.
+//
+// NOTE: This must be called with the TxNotifier's lock held.
+func (n *TxNotifier) lowerPendingHints() {
+	var confRequests []ConfRequest
+	for confRequest, confSet := range n.confNotifications {
+		if confSet.rescanStatus == rescanComplete ||
+			confSet.details != nil {
+
+			continue
+		}
+		hint, err := n.confirmHintCache.QueryConfirmHint(confRequest)
+		if err == nil && hint > n.currentHeight {
+			confRequests = append(confRequests, confRequest)
+		}
+	}
+	err := n.confirmHintCache.CommitConfirmHint(
+		n.currentHeight, confRequests...,
+	)
+	if err != nil {
+		Log.Debugf("Unable to lower confirm hints to %d for %v: %v",
+			n.currentHeight, confRequests, err)
+	}
+
+	var spendRequests []SpendRequest
+	for spendRequest, spendSet := range n.spendNotifications {
+		if spendSet.rescanStatus == rescanComplete ||
+			spendSet.details != nil {
+
+			continue
+		}
+		hint, err := n.spendHintCache.QuerySpendHint(spendRequest)
+		if err == nil && hint > n.currentHeight {
+			spendRequests = append(spendRequests, spendRequest)
+		}
+	}
+	err = n.spendHintCache.CommitSpendHint(
+		n.currentHeight, spendRequests...,
+	)
+	if err != nil {
+		Log.Debugf("Unable to lower spend hints to %d for %v: %v",
+			n.currentHeight, spendRequests, err)
 	}
 }
 
